@@ -18,6 +18,16 @@ GenNext ==
     \/ Resume /\ h' = Append(h, [ev |-> "Resume"])
     \/ Notify /\ h' = Append(h, [ev |-> "Notify"])
 GenSpec == GenInit /\ [][GenNext]_gvars
+(* lean variant for two targets: workers of the right revision only, no losses / polls / life-cycle moves -- requests,
+   dispatch and replies across two targets (a unit of an algorithm released at different passes) *)
+GenNextLean ==
+    \/ Connect /\ h' = Append(h, [ev |-> "Connect"])
+    \/ \E w \in W : Register(w, gitrev) /\ h' = Append(h, [ev |-> "Register", w |-> w, rev |-> gitrev])
+    \/ \E x \in Alg, T \in (SUBSET Targets) \ {{}} : Run(x, T) /\ h' = Append(h, [ev |-> "Run", S |-> {x}, T |-> T])
+    \/ Tick /\ h' = Append(h, [ev |-> "Tick"])
+    \/ \E u \in fly, out \in {"success", "failure"}, new \in BOOLEAN :
+          Reply(u, out, new) /\ h' = Append(h, [ev |-> "Reply", alg |-> u.alg, t |-> u.t, out |-> out, new |-> new])
+GenSpecLean == GenInit /\ [][GenNextLean]_gvars
 View == vars
 Emit == PrintT(<<"SCHED", ToJson([h |-> h'])>>)
 SimInv == PrintT(<<"SCHED", ToJson([h |-> h])>>)
